@@ -682,3 +682,45 @@ def op_concurrency(task):
 
 
 OPS["concurrency"] = op_concurrency
+
+
+def op_pair_batch(task):
+    """C07: the unoptimised and the optimised module of one request, both LLVM-compiled, on the same (arbitrary finite
+    double) inputs; outputs must be numerically equal (the sign of zero may differ)."""
+    from tensora import Tensor
+    from tensora.compile import allocate_taco_structure, take_ownership_of_arrays, tensor_cdefs
+    from tensora.compile._compile_llvm import compile_module
+
+    from . import kernels
+
+    try:
+        problem = kernels.make_problem(task["text"], task["formats"])
+        engines = {opt: compile_module(kernels.generate_module(problem, ["evaluate"], cap=task.get("cap"), optimize=opt))
+                   for opt in (False, True)}
+    except Exception as e:  # noqa: BLE001
+        return {"compile_exc": type(e).__name__, "msg": str(e)[:300]}
+    names = list(problem.formats.keys())
+    sig = f"int32_t (*)({', '.join(['void *'] * len(names))})"
+    fns = {opt: tensor_cdefs.cast(sig, eng.get_function_address("evaluate")) for opt, eng in engines.items()}
+    out_name = problem.assignment.target.name
+    ofmt = problem.formats[out_name]
+    outs = []
+    for inp in task["inputs"]:
+        sys.stdout.write("@@" + json.dumps({"id": task["id"], "progress": inp.get("cid")}) + "\n")
+        sys.stdout.flush()
+        ins = {name: _tensor(spec) for name, spec in inp["tensors"].items()}
+        res = {}
+        for opt in (False, True):
+            o = Tensor(allocate_taco_structure(tuple(m.c_int for m in ofmt.modes), tuple(inp["out_dims"]), ofmt.ordering))
+            allt = {out_name: o, **ins}
+            rc = fns[opt](*[allt[n].cffi_tensor for n in names])
+            take_ownership_of_arrays(o.cffi_tensor)
+            res[opt] = {"rc": rc, **_raw(o)}
+        same = (res[False]["rc"] == res[True]["rc"] and res[False]["levels"] == res[True]["levels"]
+                and len(res[False]["vals"]) == len(res[True]["vals"])
+                and all(a == b for a, b in zip(res[False]["vals"], res[True]["vals"])))
+        outs.append({"cid": inp.get("cid"), "same": same, "unoptimised": res[False], "optimised": res[True]})
+    return {"outs": outs}
+
+
+OPS["pair_batch"] = op_pair_batch
